@@ -129,15 +129,30 @@ def is_listed(kind, wbefore, before, after_ok):
     return False
 
 
-def audio_intact(kind, wb, after):
+def audio_intact(kind, wb, after, before=None):
     """the audio payload / foreign elements are still there, byte-identical and in order (the tag region
     itself may be half-written after a failed append)"""
     if kind.family == "ogg":
         wa, err = safe_walk(kind, after)
         if wa is not None:
             return foreign_preserved(kind, wb, wa) is None
-        # pages of the file are damaged: at least every page of the other serials must survive
+        # the comment pages are half-written: at least every page of the other serials must survive, byte for byte and in
+        # order (page by page: the pages of one foreign stream need not be adjacent in the file)
+        from fam import walkers as W
         p = 0
+        if before is not None:
+            try:
+                tagged = wb["extra"]["tagged"]
+                for pg in W.ogg_pages(before):
+                    if pg["serial"] == tagged:
+                        continue
+                    i = after.find(pg["raw"], p)
+                    if i < 0:
+                        return False
+                    p = i + len(pg["raw"])
+                return True
+            except Exception:
+                p = 0
         for lab, data in wb["foreign"]:
             if lab.endswith("-pages") and data:
                 i = after.find(data, p)
@@ -218,7 +233,7 @@ def format_oracle(ctx, sizes, partials, max_caps, kinds=None, bufsize=None):
                             ctx.violation("oracle", "C19 %s: save on a full device %s instead of raising MutagenError" % (kname, "returned normally" if res == "ok" else "raised " + res[4:]), d)
                         elif listed and out != data:
                             ctx.violation("oracle", "C19 %s: file modified although the enlargement failed (listed format)" % kname, d)
-                        elif not listed and wb is not None and not audio_intact(kind, wb, out):
+                        elif not listed and wb is not None and not audio_intact(kind, wb, out, data):
                             ctx.violation("oracle", "C19 %s: audio/foreign data damaged after a failed enlargement" % kname, d)
 
 
